@@ -13,3 +13,73 @@ def itemref_items(slot="util"):
              fns={"clone": Fn(FIR, "clone", key="ItemRef::clone", ret="res", ensures=[C("same", "res.0 == self.0")])}),
         Impl(FIR, "<T> Copy for ItemRef<T>", slot=slot),
     ]
+
+AP = "src/asm/parser/"
+
+
+def ast_types(slot="asm"):
+    """all AST node types, extracted verbatim (derives dropped, fields pub)"""
+    T = []
+    def t(file, kind, name):
+        T.append(Type(AP + file, kind, name, slot=slot))
+    t("mod.rs", "enum", "AstAny")
+    t("mod.rs", "struct", "AstTopLevel")
+    t("directive_addr.rs", "struct", "AstDirectiveAddr")
+    t("directive_align.rs", "struct", "AstDirectiveAlign")
+    t("directive_assert.rs", "struct", "AstDirectiveAssert")
+    t("directive_bank.rs", "struct", "AstDirectiveBank")
+    t("directive_bankdef.rs", "struct", "AstDirectiveBankdef")
+    t("directive_bits.rs", "struct", "AstDirectiveBits")
+    t("directive_data.rs", "struct", "AstDirectiveData")
+    t("directive_fn.rs", "struct", "AstDirectiveFn")
+    t("directive_fn.rs", "struct", "AstFnParameter")
+    t("directive_if.rs", "struct", "AstDirectiveIf")
+    t("directive_include.rs", "struct", "AstDirectiveInclude")
+    t("directive_labelalign.rs", "struct", "AstDirectiveLabelAlign")
+    t("directive_noemit.rs", "struct", "AstDirectiveNoEmit")
+    t("directive_once.rs", "struct", "AstDirectiveOnce")
+    t("directive_res.rs", "struct", "AstDirectiveRes")
+    t("directive_ruledef.rs", "struct", "AstDirectiveRuledef")
+    t("directive_ruledef.rs", "struct", "AstRule")
+    t("directive_ruledef.rs", "enum", "AstRulePatternPart")
+    t("directive_ruledef.rs", "struct", "AstRuleParameter")
+    t("directive_ruledef.rs", "enum", "AstRuleParameterType")
+    t("instruction.rs", "struct", "AstInstruction")
+    t("symbol.rs", "struct", "AstSymbol")
+    t("symbol.rs", "enum", "AstSymbolKind")
+    t("symbol.rs", "struct", "AstSymbolConstant")
+    return T
+
+
+AD = "src/asm/defs/"
+
+
+def defs_types(slot="asm"):
+    return [
+        Type(AD + "mod.rs", "struct", "ItemDefs", slot=slot),
+        Type(AD + "mod.rs", "struct", "DefList", slot=slot),
+        Type(AD + "symbol.rs", "struct", "Symbol", slot=slot),
+        Type(AD + "bankdef.rs", "struct", "Bankdef", slot=slot),
+        Type(AD + "instruction.rs", "struct", "Instruction", slot=slot),
+        Type(AD + "data_block.rs", "struct", "DataElement", slot=slot),
+        Type(AD + "res.rs", "struct", "ResDirective", slot=slot),
+        Type(AD + "align.rs", "struct", "AlignDirective", slot=slot),
+        Type(AD + "addr.rs", "struct", "AddrDirective", slot=slot),
+    ]
+
+
+def deflist_fns(mode="verify", slot="asm"):
+    F = AD + "mod.rs"
+    WF = "item_ref.0 < self.defs@.len() && self.defs@[item_ref.0 as int] is Some"
+    fns = [
+        Fn(F, "len", impl="<T> DefList<T>", impl_header="<T> DefList<T>", slot=slot, mode=mode, ret="res", key="DefList::len", props=["C03"],
+           ensures=[C("len", "res == self.defs@.len()", ["C03"])]),
+        Fn(F, "get", impl="<T> DefList<T>", impl_header="<T> DefList<T>", slot=slot, mode=mode, ret="res", key="DefList::get", props=["C03"],
+           requires=[C("defined", WF, ["C03"])],
+           ensures=[C("item", "*res == self.defs@[item_ref.0 as int]->0", ["C03"])]),
+        Fn(F, "get_mut", impl="<T> DefList<T>", impl_header="<T> DefList<T>", slot=slot, mode="stub", ret="res", key="DefList::get_mut", props=["C03"],
+           requires=[C("defined", "item_ref.0 < old(self).defs@.len() && old(self).defs@[item_ref.0 as int] is Some", ["C03"])],
+           ensures=[C("item", "*res == old(self).defs@[item_ref.0 as int]->0", ["C03"]),
+                    C("frame", "final(self).defs@ == old(self).defs@.update(item_ref.0 as int, Some(*final(res)))", ["C03"])]),
+    ]
+    return fns
